@@ -12,10 +12,12 @@
    message on the way (a nil dereference in the goroutine that processes the
    messages of a client is not recovered by anybody: the process exits).
 
-   [fixed = true] is the code with fixes/C10/01 (the response handler of a
-   pending dialout only takes validated "dialout" messages); [fixed = false] is
-   the code as found, kept for the *_refuted theorems and for judging runs
-   against an unrepaired tree.
+   [fx : fixes] says which repairs the code contains: [fx_dialout] is
+   fixes/C10/01 (the response handler of a pending dialout only takes validated
+   "dialout" messages), [fx_label] is fixes/C10/02 (the message type is no longer
+   used as label value of a prometheus counter, which panics on text that is not
+   valid UTF-8).  [unrepaired] is the code as found, kept for the *_refuted
+   theorems and for judging runs against an unrepaired tree.
 
    Library behaviour that is not modelled is a parameter of the section:
    url.Parse / url.ParseRequestURI (do they return an error?) and the SDP parser
@@ -75,7 +77,8 @@ Definition ty_mcudata : gty := resolved "MessageClientMessageData".
 Inductive input :=
 | IOversize          (* a frame longer than maxMessageSize *)
 | IBinary            (* a binary frame within the limit *)
-| IBad               (* a text frame within the limit that is not a JSON document (also the empty frame) *)
+| IBad               (* a text frame within the limit that the lexer of the decoder rejects (also the empty frame);
+                        the lexical level is not modelled: which texts these are is decided by the real lexer *)
 | IDoc (j : json).   (* a text frame holding the JSON document j *)
 
 (* ---- what the hub knows about the connection the frame arrived on ---------------------------- *)
@@ -161,6 +164,46 @@ Definition max_nesting : nat := 10000.
 Definition std_unmarshal (t : gty) (raw : json) : result gval :=
   if Nat.ltb max_nesting (json_depth raw) then Err EKind else decode t (zero t) raw.
 
+(* The generated decoders hand every array / object they do not decode member by
+   member - the value of an unknown member, of a json.RawMessage - to
+   jlexer.SkipRecursive, which checks it with json.Valid: nesting deeper than
+   10000 is an error of the whole document.  (Skipped scalars are not checked.) *)
+Definition raw_ok (v : json) : bool := Nat.leb (json_depth v) max_nesting.
+Definition field_type (k : string) (fs : list (string * string * gty)) : option gty :=
+  match find (fun f => String.eqb k (snd (fst f))) fs with
+  | Some f => Some (snd f)
+  | None => None
+  end.
+Fixpoint strip_ptr (t : gty) : gty := match t with TPtr t' => strip_ptr t' | _ => t end.
+Fixpoint skipped_ok (t : gty) (j : json) {struct j} : bool :=
+  match j with
+  | JObj ms =>
+      match strip_ptr t with
+      | TStruct fs =>
+          (fix go (ms : list (string * json)) : bool :=
+             match ms with
+             | [] => true
+             | (k, v) :: r =>
+                 match field_type k fs with Some ft => skipped_ok ft v | None => raw_ok v end && go r
+             end) ms
+      | TMap t' =>
+          (fix go (ms : list (string * json)) : bool :=
+             match ms with
+             | [] => true
+             | (_, v) :: r => skipped_ok t' v && go r
+             end) ms
+      | TRaw | TIface | TOpaque _ => raw_ok j
+      | _ => true
+      end
+  | JArr l =>
+      match strip_ptr t with
+      | TSlice t' => forallb (skipped_ok t') l
+      | TRaw | TIface | TOpaque _ => raw_ok j
+      | _ => true
+      end
+  | _ => true
+  end.
+
 Fixpoint last_char (s : string) : option ascii :=
   match s with
   | EmptyString => None
@@ -172,6 +215,34 @@ Definition with_slash (s : string) : string :=
   | Some c => if Ascii.eqb c "/"%char then s else s ++ "/"
   | None => s
   end.
+
+(* which repairs the tree contains *)
+Record fixes := { fx_dialout : bool; fx_label : bool }.
+Definition repaired : fixes := {| fx_dialout := true; fx_label := true |}.
+Definition unrepaired : fixes := {| fx_dialout := false; fx_label := false |}.
+
+(* unicode/utf8.ValidString on the bytes of the string (prometheus checks label values with it) *)
+Definition btw (lo hi n : nat) : bool := Nat.leb lo n && Nat.leb n hi.
+Fixpoint utf8_go (s : string) (need lo hi : nat) : bool :=
+  match s with
+  | EmptyString => Nat.eqb need 0
+  | String c r =>
+      let n := nat_of_ascii c in
+      match need with
+      | O =>
+          if Nat.ltb n 128 then utf8_go r 0 128 191
+          else if btw 194 223 n then utf8_go r 1 128 191
+          else if Nat.eqb n 224 then utf8_go r 2 160 191
+          else if btw 225 236 n || btw 238 239 n then utf8_go r 2 128 191
+          else if Nat.eqb n 237 then utf8_go r 2 128 159
+          else if Nat.eqb n 240 then utf8_go r 3 144 191
+          else if btw 241 243 n then utf8_go r 3 128 191
+          else if Nat.eqb n 244 then utf8_go r 3 128 143
+          else false
+      | S k => if btw lo hi n then utf8_go r k 128 191 else false
+      end
+  end.
+Definition utf8_valid (s : string) : bool := utf8_go s 0 128 191.
 
 Section WithOracles.
   Context (url_ok : string -> bool)        (* url.Parse returns no error *)
@@ -485,17 +556,21 @@ Section WithOracles.
         else VIgnored                                     (* hello on an authenticated connection; unknown type *)
     end.
 
-  Definition classify (fixed : bool) (st : session_state) (i : input) : verdict :=
+  Definition classify (fx : fixes) (st : session_state) (i : input) : verdict :=
     match i with
     | IOversize => VTooLarge
     | IBinary | IBad => VDecodeError
     | IDoc j =>
+        if negb (skipped_ok ty_client j) then VDecodeError else
         match decode ty_client (zero ty_client) j with
         | Err _ => VDecodeError
         | Ok m =>
             match check_valid m with
             | CErr c => VError c (msg_id m)
-            | COk p => dispatch fixed st m p
+            | COk p =>
+                (* statsMessagesTotal.WithLabelValues(message.Type) *)
+                if negb (fx_label fx) && negb (utf8_valid (sfld "Type" m)) then VPanic
+                else dispatch (fx_dialout fx) st m p
             end
         end
     end.
